@@ -62,29 +62,81 @@ def parse_dump(text):
 
 
 def static_depth(code):
-    """Lexical scope depth of every instruction index, from the structured shape of emitted code.
-    Returns (depths, problems)."""
-    depths, problems = [], []
-    d = 0
-    for ip, (opc, args) in enumerate(code):
-        depths.append(d)
-        if opc in OPENERS:
-            d += 1
-        elif opc == OP["done"]:
-            d -= 1
-        elif opc == OP["jmp_pop"]:
-            try:
-                off = int(args[0])
-            except (IndexError, ValueError):
-                problems.append("jmp_pop without offset at %d" % ip)
-                continue
-            if off < 0:
-                d -= 1
+    """Scope-frame depth of every *reachable* instruction, by data-flow over the control-flow graph of the
+    function (both outcomes of every conditional jump are followed, executed or not).  Effects: `if_stmt` /
+    `while_loop` open a frame on the fall-through edge only, `else_stmt` opens one, `done` closes one,
+    `jmp_pop off n` closes n on its jump edge, `ret`/`ret_mod` leave the function (any frames still open are
+    discarded by the interpreter's pop_until_function, which is how a `return` closes them).
+    Returns (depths, problems); depths[i] is None for unreachable instructions."""
+    n = len(code)
+    depths = [None] * n
+    problems = []
+    seen_problem = set()
+
+    def bad(msg):
+        if msg not in seen_problem and len(problems) < 6:
+            seen_problem.add(msg)
+            problems.append(msg)
+
+    work = [(0, 0)] if n else []
+    while work:
+        ip, d = work.pop()
+        if ip == n:
+            # falling off the end: Function::run pops exactly one frame (the function's own)
+            if d != 0:
+                bad("a path falls off the end of the function with %d scope(s) still open" % d)
+            continue
+        if ip < 0 or ip > n:
+            continue          # reported by jump_targets
         if d < 0:
-            problems.append("scope closed more often than opened at instruction %d" % ip)
-            d = 0
-    if d != 0:
-        problems.append("function ends with %d scope(s) still open" % d)
+            bad("a path closes more scopes than it opened before instruction %d" % ip)
+            continue
+        if depths[ip] is not None:
+            if depths[ip] != d:
+                bad("instruction %d (%s) is reached with %d and with %d open scope(s)" % (ip, OPNAMES[code[ip][0]] if code[ip][0] < len(OPNAMES) else code[ip][0], depths[ip], d))
+            continue
+        depths[ip] = d
+        opc, args = code[ip]
+        if opc in (OP["ret"], OP["ret_mod"]):
+            continue
+        off = None
+        if opc in JUMP_ARG:
+            try:
+                off = int(args[JUMP_ARG[opc]])
+            except (IndexError, ValueError):
+                bad("%s at %d lacks a numeric offset" % (OPNAMES[opc], ip))
+        if opc in (OP["if_stmt"], OP["while_loop"]):
+            work.append((ip + 1, d + 1))
+            if off is not None:
+                work.append((ip + off, d))
+        elif opc == OP["else_stmt"]:
+            work.append((ip + 1, d + 1))
+        elif opc == OP["done"]:
+            if d - 1 < 0:
+                bad("`done` at %d closes a scope that is not open on some path" % ip)
+            else:
+                work.append((ip + 1, d - 1))
+        elif opc == OP["jmp"]:
+            if off is not None:
+                work.append((ip + off, d))
+        elif opc == OP["jmp_pop"]:
+            k = 1
+            if len(args) > 1:
+                try:
+                    k = int(args[1])
+                except ValueError:
+                    k = 1
+            if off is not None:
+                if d - k < 0:
+                    bad("jmp_pop at %d pops %d scope(s) with %d open on some path" % (ip, k, d))
+                else:
+                    work.append((ip + off, d - k))
+        elif opc in (OP["jmp_not_nil"], OP["store_skip"]):
+            work.append((ip + 1, d))
+            if off is not None:
+                work.append((ip + off, d))
+        else:
+            work.append((ip + 1, d))
     return depths, problems
 
 
@@ -203,10 +255,12 @@ def check_trace(trace_text, dump_fns=None, normal_exit=True, max_problems=5):
                     bad("ip_range", "%s: instruction index %d outside 0..%d" % (a.name, ip, len(a.code) - 1))
                 elif a.code[ip][0] != opc:
                     bad("dump_mismatch", "%s: trace opcode %d at %d, dump has %d" % (a.name, opc, ip, a.code[ip][0]))
+                elif a.sdepth is not None and a.sdepth[ip] is None:
+                    bad("static_unreachable", "%s: instruction %d (%s) executed although no path of the control-flow graph reaches it" % (a.name, ip, OPNAMES[opc]))
                 elif a.sdepth is not None:
                     stats["static_checked"] += 1
                     if depth - a.entry != a.sdepth[ip]:
-                        bad("static_depth", "%s: %d scope frame(s) open at instruction %d (%s), lexical nesting is %d" % (
+                        bad("static_depth", "%s: %d scope frame(s) open at instruction %d (%s), every static path reaches it with %d" % (
                             a.name, depth - a.entry, ip, OPNAMES[opc], a.sdepth[ip]))
             if depth != a.entry + a.shadow:
                 bad("shadow_depth", "%s: frame depth %d at instruction %d (%s), shadow scope stack says %d" % (
